@@ -45,6 +45,7 @@ type report struct {
 	assumptions                  map[string]bool
 	slowest                      float64
 	replayer                     string
+	usedPaths                    map[string]int
 }
 
 func newReport(pd *PropDef, tier string, seed int64) *report {
